@@ -85,7 +85,9 @@ def standard_run(ctx, module, theorems, witnesses, quick_n=(3000, 3000), thoroug
     h = ctx.cargo_build("chan", "chanh", rustflags=CHAN_RUSTFLAGS)
     ctx.assumptions += [a for a in ASSUMPTIONS if a not in ctx.assumptions]
     if ctx.replay:
-        tie(ctx, "replay", [h, "run", ctx.replay], [drv]); return h, drv
+        if replay_owner(ctx) is None:
+            tie(ctx, "replay", [h, "run", ctx.replay], [drv])
+        return h, drv
     for w in witnesses:
         witness_tie(ctx, h, drv, w)
     corpus_ties(ctx, h, drv)
@@ -134,15 +136,37 @@ def liveness_tie(ctx, name, cmd, drv):
     t.mismatches = keep
     return classify(ctx, t)
 
+def replay_owner(ctx):
+    """name of the layer-B plug-in whose tie wrote the replay file (its tie names start with `<plug-in>-`), else None"""
+    try:
+        for l in open(ctx.replay, errors="replace"):
+            if l.startswith("# tie: "):
+                name = l[len("# tie: "):].strip()
+                for m in LAYER_B_ALL + ["lockb"]:
+                    if name.startswith(m + "-"):
+                        return m
+                return None
+            if not l.startswith("#"):
+                break
+    except OSError:
+        pass
+    return None
+
+# the step-level cores (props/<name>.py plug-ins), in the order their ties run
+LAYER_B_ALL = ["spscb", "mpsc3b", "mpmc2b", "rdvb", "chainb", "spmcb", "oneshotb"]
+
 def layer_b(ctx, mods):
     """Step-level (layer B) obligations and atomic-action ties of the lock-free cores, provided by other modules
-    (each exposes THEOREMS (+ MODULE) or obligations(ctx), and tie(ctx)).  They are included in the thorough tier
-    (or with VERIF_CHAN_LAYERB=1): their Lean modules and trace ties take many minutes.  Their monitor lines are
+    (each exposes THEOREMS (+ MODULE) or obligations(ctx), and tie(ctx)).  They run in both tiers (quick sizes are the plug-ins' own; VERIF_CHAN_LAYERB=0 switches them off).  Their monitor lines are
     filtered like ours: only signatures of the property being checked are judged here."""
     import importlib
-    if ctx.quick and os.environ.get("VERIF_CHAN_LAYERB", "0") != "1":
-        ctx.notes.append("layer-B modules (%s) not included in the quick tier; run --tier thorough or set VERIF_CHAN_LAYERB=1" % ", ".join(mods))
+    if os.environ.get("VERIF_CHAN_LAYERB", "1") == "0":
+        ctx.notes.append("layer-B modules (%s) switched off by VERIF_CHAN_LAYERB=0" % ", ".join(mods))
         return
+    if ctx.replay:
+        # a replay file belongs to the tie that wrote it (`# tie: <name>` header): only that engine re-judges it
+        owner = replay_owner(ctx)
+        mods = [m for m in mods if owner is not None and owner == m]
     for mod in mods:
         p = os.path.join(VERIF, "props", mod + ".py")
         if not os.path.exists(p):
